@@ -199,6 +199,9 @@ def run(tier: str) -> int:
             rng.shuffle(rest)
             rng.shuffle(must)
             short, rest, must = short[:900], rest[:200], must[:300]
+        else:
+            rng.shuffle(rest)
+            rest = rest[:4000]
         cases = short + must + rest
         rep.parts["replay_selection"] = {"short_chains": len(short), "longer_restrict_then_parent": len(must), "longer_other": len(rest)}
         stats = {"chains": 0, "attempts_refused_checked": 0, "attempts_allowed_checked": 0, "parent_refusals": 0}
